@@ -47,6 +47,10 @@ func (t *T) GetRemoveSuffixKey() string {
 }
 
 func (t *T) GetRemovePrefixKey() string {
+	if t.key == "" {
+		return ""
+	}
+
 	return t.key[1:]
 }
 
